@@ -574,6 +574,25 @@ func (p c13) Run(w *mon.Worker, idx int) mon.Result {
 			}
 		}
 	}
+	// route 2d: the conversion done by an encoder INSIDE the expression (it works on a copy of the document) resolves every
+	// alias and merge key to what the document itself resolves them to
+	if idx%2 == 0 {
+		oj, ej, pj := yqx.Eval("to_json | from_json", text, "yaml", "json")
+		res.Evals++
+		if ej != nil || pj != nil {
+			return fail("`to_json | from_json` failed: %v %v\n%s", ej, pj, text)
+		}
+		vj, perr := ref.ParseJSONStream(oj)
+		if perr != nil || len(vj) != 1 {
+			return fail("`to_json | from_json` printed %q", clipStr(oj, 300))
+		}
+		if !sameUnordered(vj[0], want) {
+			if _, ok := explain(vj[0], whole, false); !ok {
+				return fail("`to_json | from_json` resolves aliases/merges differently from the document\n doc:\n%s expected %s\n observed %s", text, canon(want), canon(vj[0]))
+			}
+		}
+		res.Tags = append(res.Tags, "in_expression_encoder")
+	}
 	// route 2c: two steps in one evaluation. Every alias is encoded once (which resolves it), THEN the anchored scalars
 	// are given a new value, then the document is exploded: the aliases resolve to what their anchors hold at that
 	// moment, exactly as without the encoding step in front
